@@ -113,7 +113,7 @@ def run(ctx):
         try:
             o = N.Nilsimsa() if target is None else N.Nilsimsa(target)
             for x in pieces: o.update(x)
-            e['obs'] = B(o.digest())
+            e['obs'] = core.SB(o.digest())
         except Exception as ex: e['raised'] = type(ex).__name__
         nev.append(e)
     for target in ((None, 17, 1) if big else (None, 17)):
@@ -127,13 +127,25 @@ def run(ctx):
         for _ in range(8 if big else 2):
             d2 = words(rnd.randrange(10, 70)); cuts = sorted(rnd.randrange(len(d2) + 1) for _ in range(rnd.randrange(2, 6)))
             feed(target, [d2[x:y] for x, y in zip([0] + cuts, cuts + [len(d2)])], 'nil_multi')
+    for ta, tb in ((None, None), (None, 17), (17, 17)):           # two objects fed alternately: histogram and window are per object
+        oa = N.Nilsimsa() if ta is None else N.Nilsimsa(ta); ob = N.Nilsimsa() if tb is None else N.Nilsimsa(tb)
+        pa, pb = [words(9), words(14), words(5)], [words(4), words(21), words(2)]
+        res = {}
+        try:
+            for x, y in zip(pa, pb): oa.update(x); ob.update(y)
+            N.Nilsimsa()(words(30))                          # a third object used in between
+            res['a'] = oa.digest(); res['b'] = ob.digest()
+        except Exception as ex: res['err'] = type(ex).__name__
+        for tag, t_, ps in (('a', ta, pa), ('b', tb, pb)):
+            e = dict(op='nil_multi', target=53 if t_ is None else t_, pieces=[B(x) for x in ps], raised=res.get('err', ''), obs=core.SB(res[tag]) if tag in res else [])
+            nev.append(e)
     for target in (None, 17):                       # digest() resets: consecutive digests from ONE object, including after very short inputs
         o = N.Nilsimsa() if target is None else N.Nilsimsa(target)
         for pieces in ([words(20)], [b'a'], [words(9), words(4)], [b'xy'], [words(30)], [b''], [words(3), b'', words(5)]):
             e = dict(op='nil_multi', target=53 if target is None else target, pieces=[B(x) for x in pieces], raised='', obs=[])
             try:
                 for x in pieces: o.update(x)
-                e['obs'] = B(o.digest())
+                e['obs'] = core.SB(o.digest())
             except Exception as ex: e['raised'] = type(ex).__name__
             nev.append(e)
     ntr = [dict(ev=nev[i:i + 8]) for i in range(0, len(nev), 8)]
